@@ -17,6 +17,9 @@ def safe_table(rng):
     ns, ne = rng.randint(1, 3), rng.randint(1, 3)
     states = ["State%s%d" % (rng.choice("ABCD"), i) for i in range(ns)]
     events = ["Event%s%d" % (rng.choice("KLMN"), i) for i in range(ne)]
+    if rng.random() < 0.15:
+        # an event may be called anything that is a valid class name, e.g. the words of a tank / spooler / lock model
+        events[rng.randrange(ne)] = rng.choice(["Empty", "Full", "Queue", "Thread", "Event", "Lock", "Timer"])
     rows = []
     for s in states:
         for e in rng.sample(events, rng.randint(1, ne)):
